@@ -128,25 +128,22 @@ impl NewerOptionMatcher {
         let metadata = fs::metadata(path_to_file)?;
         let x_option = NewerOptionType::from_str(x_option);
         let y_option = NewerOptionType::from_str(y_option);
+        // -newerXY compares the X timestamp of the entry with the Y timestamp
+        // of the reference file.
         Ok(Self {
             x_option,
             y_option,
-            given_modification_time: metadata.modified()?,
+            given_modification_time: y_option.get_file_time(&metadata)?,
         })
     }
 
     fn matches_impl(&self, file_info: &WalkEntry) -> Result<bool, Box<dyn Error>> {
         let x_option_time = self.x_option.get_file_time(file_info.metadata()?)?;
-        let y_option_time = self.y_option.get_file_time(file_info.metadata()?)?;
 
         Ok(self
             .given_modification_time
             .duration_since(x_option_time)
-            .is_err()
-            && self
-                .given_modification_time
-                .duration_since(y_option_time)
-                .is_err())
+            .is_err())
     }
 }
 
